@@ -136,7 +136,7 @@ def run(ctx):
             drop = rng.choice([1, 2, 3])
             max_it = rng.choice([5, 10])
             res.hit("duplicate_prototype_stream")
-        max_dba_it = rng.choice([1, 3, 10])
+        max_dba_it = rng.choice([1, 3, 10, 10, 0])
         seed = rng.randint(0, 10 ** 6)
         mode = "serial"
         if par_budget > 0 and it % 20 == 7 and not dup_stream:
